@@ -84,3 +84,19 @@ impl Input {
         self.kind.len()
     }
 }
+
+/// Hooks for external verification harnesses: read-only views of the parser input.
+#[cfg(feature = "oq3_verif")]
+impl Input {
+    pub fn verif_len(&self) -> usize {
+        self.len()
+    }
+
+    pub fn verif_kind(&self, idx: usize) -> SyntaxKind {
+        self.kind(idx)
+    }
+
+    pub fn verif_is_joint(&self, n: usize) -> bool {
+        self.is_joint(n)
+    }
+}
